@@ -27,7 +27,7 @@ def fault_case(rng):
     """prefix words, one faulty construct, words in the same paragraph, blank line, tail words"""
     w = words(rng, 9)
     pre = ' '.join(w[:3]) + rng.choice([' ', '\n', '\n\n'])
-    kind = rng.choice(['maths', 'maths2', 'display', 'arg', 'optarg', 'verbatim', 'verb', 'skip', 'accent', 'input', 'badfile'])
+    kind = rng.choice(['maths', 'maths2', 'display', 'arg', 'optarg', 'verbatim', 'verb', 'skip', 'accent', 'input', 'badfile', 'display-sep'])
     same = ' '.join(w[3:6])
     tail = '\n\n' + ' '.join(w[6:9]) + rng.choice(['', '\n'])
     must = set()
@@ -42,6 +42,12 @@ def fault_case(rng):
         fault = rng.choice(['\\[', '\\begin{equation}']) + ' a = b '
         src = pre + fault + same + tail
         pos = len(pre); must = set(w[:3]) | set(w[6:9]); msg = 'missing end of maths'
+    elif kind == 'display-sep':
+        # the text ends directly behind a section separator of an open displayed equation
+        fault = rng.choice(['\\[', '\\begin{equation}', '\\begin{align}', '$$']) + ' a ' + rng.choice(['\\\\', '&', '\\\\[2ex]', '= b &', 'x \\\\'])
+        src = pre + fault
+        same, tail = '', ''
+        pos = len(pre); must = set(w[:3]); msg = 'missing end of maths'
     elif kind == 'arg':
         name = rng.choice(['\\footnote', '\\section', '\\textbf', '\\caption'])
         if name == '\\textbf':       # an undeclared macro does not parse arguments: the brace simply opens a group
@@ -79,7 +85,7 @@ def fault_case(rng):
         src = pre + fault + ' ' + same + tail
         pos = len(pre); must = set(w); msg = 'could not read file'
     # optionally cut the text right behind the faulty construct (mark longer than the rest of the text)
-    if rng.random() < 0.35 and kind not in ('optarg',):
+    if rng.random() < 0.35 and kind not in ('optarg', 'display-sep'):
         cut = len(pre) + len(fault)
         src = src[:cut]
         must = set(w[:3])
